@@ -1,0 +1,21 @@
+"""
+    Verification hooks (off unless the environment variable PERSIM_VERIF=1 is set
+    when persim is imported).  ``emit`` appends one event to a process-local list;
+    nothing is recorded, allocated or changed when the guard is off.
+"""
+import os
+
+enabled = os.environ.get("PERSIM_VERIF", "") == "1"
+events = []
+
+
+def emit(event, **fields):
+    if enabled:
+        fields["event"] = event
+        events.append(fields)
+
+
+def drain():
+    out = list(events)
+    del events[:]
+    return out
